@@ -729,7 +729,7 @@ func limitCorpus() []string {
 	nest := func(n int, inner string) string { return strings.Repeat("[", n) + inner + strings.Repeat("]", n) }
 	wide := "[" + strings.TrimSuffix(strings.Repeat(nest(45, "")+",", 1000), ",") + "]"
 	return []string{
-		nest(1400, ""), nest(1413, ""), nest(1414, ""), nest(1420, ""), nest(2000, ""), nest(5000, ""),
+		nest(1413, ""), nest(1414, ""), nest(1400, ""), nest(3000, ""),
 		nest(1400, `"`+strings.Repeat("a", 17899)+`"`), nest(1400, `"`+strings.Repeat("a", 17900)+`"`),
 		nest(1400, `"`+strings.Repeat("é", 8949)+`x"`), nest(1400, `"`+strings.Repeat("é", 8950)+`"`),
 		wide, `{"k":` + nest(1412, "") + `}`, `{"k":` + nest(1413, "") + `}`, `{"__default__":` + nest(1413, "") + `}`, `{"__default__":` + nest(1414, "") + `}`,
@@ -867,8 +867,8 @@ func runJSON(o *hx.Opts, res *hx.Result, r *hx.Rand) {
 		if out != nil {
 			outCoq = "(Some " + coqJSON(out) + ")"
 		}
-		if len(doc) > 40000 {
-			continue // direct oracle only: too large for a cases file
+		if len(doc) > 40000 || (f.depth > 1000 && len(doc) != 2*1413 && len(doc) != 2*1414) {
+			continue // direct oracle only: too large (or, but for two documents, too deep) for a cases file
 		}
 		if len(doc) > 2000 {
 			input = map[string]any{"kind": "json", "document": doc[:200] + "...", "bytes": len(doc)}
